@@ -21,7 +21,7 @@ def check(v, tier, seed):
     rowf = os.path.join(wd, "rows.ndjson")
     vlib.write_ndjson(rowf, rows)
     obs = os.path.join(wd, "obs.ndjson")
-    rc, out = vlib.run("(%s replay %s && %s random %d %d) > %s" % (exe, rowf, exe, seed, 500 if quick else 12000, obs), timeout=3000)
+    rc, out = vlib.run("(%s replay %s && %s random %d %d && %s tiny %d %d) > %s" % (exe, rowf, exe, seed, 500 if quick else 12000, exe, seed + 4, 400000 if quick else 6000000, obs), timeout=3000)
     if rc != 0:
         v.violation({"what": "keyframe animation codec crashed", "rc": rc, "output": out[-1500:]}, tags={"kind": "crash"})
         return v.finish("model_checking")
